@@ -90,14 +90,16 @@ def attach():
             if sh.path is not None:
                 _viol("ownership", f"get_treepath_memo raised although this thread set label {sh.path!r}")
             raise
-        if out != sh.path:
+        if sh.path != "<unknown>" and out != sh.path:
             _viol("ownership", f"get_treepath_memo returned {out!r} but this thread set {sh.path!r}")
         return out
 
     def set_treepath_memo(index, structure):
         r = orig["set_treepath_memo"](index, structure)
+        # what the accessor hands out right now is what this thread "stored" - never the
+        # representation kept inside the storage (which a refactoring is free to change)
         try:
-            _sh().path = S._treepath_storage.value
+            _sh().path = orig["get_treepath_memo"]()
         except Exception:
             _sh().path = "<unknown>"
         return r
